@@ -4,7 +4,7 @@
    marshalling any object of the graph yields exactly enc of its current value (the property lists
    in order), with the strict-array count equal to the number of properties, and those bytes
    decode back to the current value. *)
-From Verif Require Import Lib.Base Lib.Sx Model.Amf0 Proofs.Amf0.
+From Verif Require Import Lib.Base Lib.Sx Model.Amf0 Proofs.Amf0 Proofs.Amf0Recv.
 Open Scope N_scope.
 Ltac Zify.zify_post_hook ::= Z.div_mod_to_equations.
 
@@ -278,11 +278,196 @@ Proof.
     destruct d; [rewrite Hc|]; reflexivity.
 Qed.
 
+(* ---- what a (possibly rejected) UnmarshalBinary leaves in the receiver ---- *)
+Lemma wf_propsb_app a b : wf_propsb (a ++ b) = wf_propsb a && wf_propsb b.
+Proof.
+  induction a as [|[k x] t IH]; [reflexivity|]. cbn [app wf_propsb]. rewrite IH.
+  now rewrite !andb_assoc.
+Qed.
+
+Lemma wf_propsb_rev ps : wf_propsb ps = true -> wf_propsb (rev ps) = true.
+Proof.
+  induction ps as [|[k x] t IH]; [reflexivity|]. cbn [wf_propsb rev]. intros H.
+  apply andb_true_iff in H. destruct H as [H Ht]. rewrite wf_propsb_app, (IH Ht). cbn [wf_propsb].
+  rewrite H. reflexivity.
+Qed.
+
+Lemma g_of_props_wfc d ps : wf_propsb ps = true -> gwfc_props (g_of_props d ps) = true.
+Proof.
+  induction ps as [|[k x] t IH]; [reflexivity|]. cbn [wf_propsb g_of_props gwfc_props]. intros H.
+  apply andb_true_iff in H. destruct H as [H Ht]. apply andb_true_iff in H. destruct H as [Hk Hx].
+  destruct (g_of_amf_spec d x Hx) as [A _]. rewrite Hk, A, (IH Ht). reflexivity.
+Qed.
+
+(* every exit of objectBase.unmarshal -- success or any rejection point -- leaves well-formed
+   completed pairs in the receiver *)
+Lemma dec_props_st_wf : forall f eof maxn p racc n sz,
+  wf_bytes p -> wf_propsb racc = true ->
+  wf_propsb (fst (dec_props_st f eof maxn p racc n sz)) = true.
+Proof.
+  induction f as [|f IH]; intros eof maxn p racc n sz Hp Hr; cbn [dec_props_st].
+  - apply wf_propsb_rev. exact Hr.
+  - destruct (negb eof && (maxn <=? n)); [apply wf_propsb_rev; exact Hr|].
+    destruct (um_utf8 p) as [[k p1]|e|s] eqn:Eu; try (apply wf_propsb_rev; exact Hr).
+    apply um_utf8_ok in Eu. destruct Eu as (h & l & -> & Hk).
+    apply wf_bytes_cons in Hp. destruct Hp as [Hh Hp]. apply wf_bytes_cons in Hp. destruct Hp as [Hl Hp].
+    apply wf_bytes_app in Hp. destruct Hp as [Hkb Hp1].
+    destruct (eof && is_eof k p1); [apply wf_propsb_rev; exact Hr|].
+    destruct (dec f p1) as [[v vs]|e|s] eqn:Ed; try (apply wf_propsb_rev; exact Hr).
+    pose proof (amf0_dec_wf _ _ _ _ Hp1 Ed) as Hv.
+    destruct (takeN vs p1) as [[a p2]|] eqn:Et; [|apply wf_propsb_rev; exact Hr].
+    apply takeN_some in Et. destruct Et as [-> _]. apply wf_bytes_app in Hp1. destruct Hp1 as [_ Hp2].
+    apply IH; [exact Hp2|]. cbn [wf_propsb]. rewrite Hr, Hv, wf_strb_intro; [reflexivity| |exact Hkb].
+    pose proof (ube2_bound h l Hh Hl). lia.
+Qed.
+
+Lemma g_unmarshal_cont_wfc k c ps f p :
+  gwfc (GCont k c ps) = true -> wf_bytes p -> gwfc (fst (g_unmarshal_cont k c ps f p)) = true.
+Proof.
+  intros Hg Hp. pose proof Hg as Hg0. rewrite gwfc_cont in Hg.
+  apply andb_true_iff in Hg. destruct Hg as [Hg _]. apply andb_true_iff in Hg. destruct Hg as [Hk Hc].
+  unfold g_unmarshal_cont. destruct (k =? mObject).
+  { destruct p as [|m r]; [exact Hg0|]. destruct (negb (m =? mObject)); [exact Hg0|].
+    apply wf_bytes_cons in Hp. destruct Hp as [_ Hr].
+    pose proof (dec_props_st_wf (f) true 0 r [] 0 0 Hr eq_refl) as Hw.
+    destruct (dec_props_st f true 0 r [] 0 0) as [ps' st]. cbn [fst] in *.
+    rewrite gwfc_cont, Hk, Hc, (g_of_props_wfc true ps' Hw). reflexivity. }
+  destruct (k =? mEcmaArray).
+  { destruct p as [|m [|a [|b [|c0 [|d r]]]]]; try exact Hg0.
+    destruct (negb (m =? mEcmaArray)); [exact Hg0|].
+    repeat (apply wf_bytes_cons in Hp; destruct Hp as [? Hp]).
+    pose proof (dec_props_st_wf f true 0 r [] 0 0 Hp eq_refl) as Hw.
+    destruct (dec_props_st f true 0 r [] 0 0) as [ps' st]. cbn [fst] in *.
+    rewrite gwfc_cont, Hk, (g_of_props_wfc true ps' Hw).
+    pose proof (ube4_bound a b c0 d). replace (ube4 a b c0 d <? 4294967296) with true by lia. reflexivity. }
+  destruct p as [|m [|a [|b [|c0 [|d r]]]]]; try exact Hg0.
+  destruct (negb (m =? mStrictArray)); [exact Hg0|].
+  repeat (apply wf_bytes_cons in Hp; destruct Hp as [? Hp]).
+  pose proof (ube4_bound a b c0 d) as Hb. cbv zeta.
+  destruct (ube4 a b c0 d =? 0) eqn:E0.
+  { cbn [fst]. rewrite gwfc_cont, Hk. cbn [gwfc_props]. replace (ube4 a b c0 d <? 4294967296) with true by lia. reflexivity. }
+  pose proof (dec_props_st_wf f false (ube4 a b c0 d) r [] 0 0 Hp eq_refl) as Hw.
+  destruct (dec_props_st f false (ube4 a b c0 d) r [] 0 0) as [ps' st]. cbn [fst] in *.
+  rewrite gwfc_cont, Hk, (g_of_props_wfc true ps' Hw).
+  replace (ube4 a b c0 d <? 4294967296) with true by lia. reflexivity.
+Qed.
+
+Lemma g_unmarshal_wfc g f p : gwfc g = true -> wf_bytes p -> gwfc (fst (g_unmarshal g f p)) = true.
+Proof.
+  intros Hg Hp. destruct g as [v|k c ps]; cbn [g_unmarshal]; [|apply g_unmarshal_cont_wfc; assumption].
+  cbn [gwfc] in Hg. destruct (g_of_amf_spec false v Hg) as [A _].
+  destruct (g_of_amf false v) as [v0|k c ps]; [|apply g_unmarshal_cont_wfc; assumption].
+  destruct (um_into v f p) as [[v' n]|e|s] eqn:E; cbn [fst gwfc]; try exact Hg.
+  apply um_into_dec in E. exact (amf0_dec_wf _ _ _ _ Hp E).
+Qed.
+
+(* [dec_props_st] is [dec_props] that also reports the receiver's property list on rejection *)
+Lemma dec_props_st_spec : forall f eof maxn p racc n sz,
+  match dec_props f eof maxn p racc n sz with
+  | Ok (ps, sz') => dec_props_st f eof maxn p racc n sz = (ps, Ok sz')
+  | Err e => snd (dec_props_st f eof maxn p racc n sz) = Err e
+  | Panic s => snd (dec_props_st f eof maxn p racc n sz) = Panic s
+  end.
+Proof.
+  induction f as [|f IH]; intros eof maxn p racc n sz; [reflexivity|].
+  rewrite dec_props_S. cbn [dec_props_st].
+  destruct (negb eof && (maxn <=? n)); [reflexivity|].
+  destruct (um_utf8 p) as [[k p1]|e|s]; try reflexivity.
+  destruct (eof && is_eof k p1); [reflexivity|].
+  destruct (dec f p1) as [[v vs]|e|s]; try reflexivity.
+  destruct (takeN vs p1) as [[a p2]|]; [apply IH|reflexivity].
+Qed.
+
+Lemma dec_props_st_ok f eof maxn p racc n sz ps sz' :
+  dec_props_st f eof maxn p racc n sz = (ps, Ok sz') -> dec_props f eof maxn p racc n sz = Ok (ps, sz').
+Proof.
+  intros H. pose proof (dec_props_st_spec f eof maxn p racc n sz) as S.
+  destruct (dec_props f eof maxn p racc n sz) as [[ps0 sz0]|e|s].
+  - rewrite S in H. inversion H. reflexivity.
+  - rewrite H in S. discriminate.
+  - rewrite H in S. discriminate.
+Qed.
+
+Lemma g_view_of_props d ps :
+  Forall (fun kv => g_view (g_of_amf d (snd kv)) = snd kv) ps -> g_view_props (g_of_props d ps) = ps.
+Proof.
+  induction 1 as [|[k x] t Hx _ IH]; [reflexivity|]. cbn [g_of_props g_view_props snd] in *.
+  now rewrite Hx, IH.
+Qed.
+
+Lemma g_view_of_amf d v : g_view (g_of_amf d v) = v.
+Proof.
+  induction v as [b|b|s|ps IH| | |c ps IH|ps IH] using amf_ind'; try reflexivity.
+  - rewrite g_of_amf_cont_obj, g_view_cont, (g_view_of_props d ps IH). reflexivity.
+  - rewrite g_of_amf_cont_ecma, g_view_cont, (g_view_of_props d ps IH). reflexivity.
+  - rewrite g_of_amf_cont_strict, g_view_cont, (g_view_of_props d ps IH). reflexivity.
+Qed.
+
+Lemma g_view_props_of d ps : g_view_props (g_of_props d ps) = ps.
+Proof. apply g_view_of_props. apply Forall_forall. intros kv _. apply g_view_of_amf. Qed.
+
+(* a successful UnmarshalBinary ON an object of the graph -- whatever the object held, including
+   the state left by an earlier rejected call -- replaces its value by exactly what
+   Discovery + UnmarshalBinary on a fresh value yields *)
+Lemma g_unmarshal_cont_ok k c ps f p g' n : is_cont_kind k = true ->
+  g_unmarshal_cont k c ps f p = (g', Ok n) -> dec (S f) p = Ok (g_view g', n).
+Proof.
+  intros Hk. unfold g_unmarshal_cont.
+  destruct (cont_kind_cases k Hk) as [->|[->| ->]].
+  - change (mObject =? mObject) with true. cbv iota.
+    destruct p as [|m r]; [discriminate|]. destruct (N.eqb_spec m mObject) as [->|]; cbn [negb]; [|discriminate].
+    destruct (dec_props_st f true 0 r [] 0 0) as [ps' st] eqn:E. destruct st as [sz|e|s]; cbn [res_add]; try discriminate.
+    intros H. inversion H; subst. apply dec_props_st_ok in E.
+    rewrite dec_obj, um_object_eq, E. cbv beta iota delta [bind].
+    rewrite g_view_cont, g_view_props_of. reflexivity.
+  - change (mEcmaArray =? mObject) with false. change (mEcmaArray =? mEcmaArray) with true. cbv iota.
+    destruct p as [|m [|a [|b [|c0 [|d r]]]]]; try discriminate.
+    destruct (N.eqb_spec m mEcmaArray) as [->|]; cbn [negb]; [|discriminate].
+    destruct (dec_props_st f true 0 r [] 0 0) as [ps' st] eqn:E. destruct st as [sz|e|s]; cbn [res_add]; try discriminate.
+    intros H. inversion H; subst. apply dec_props_st_ok in E.
+    rewrite dec_ecma, um_ecma_eq, E. cbv beta iota delta [bind].
+    rewrite g_view_cont, g_view_props_of. reflexivity.
+  - change (mStrictArray =? mObject) with false. change (mStrictArray =? mEcmaArray) with false. cbv iota.
+    destruct p as [|m [|a [|b [|c0 [|d r]]]]]; try discriminate.
+    destruct (N.eqb_spec m mStrictArray) as [->|]; cbn [negb]; [|discriminate].
+    rewrite dec_strict, um_strict_eq. cbv zeta. destruct (ube4 a b c0 d =? 0).
+    { intros H. inversion H; subst. reflexivity. }
+    destruct (dec_props_st f false (ube4 a b c0 d) r [] 0 0) as [ps' st] eqn:E.
+    destruct st as [sz|e|s]; cbn [res_add]; try discriminate.
+    intros H. inversion H; subst. apply dec_props_st_ok in E.
+    rewrite E. cbv beta iota delta [bind]. rewrite g_view_cont, g_view_props_of. reflexivity.
+Qed.
+
+Theorem decode_into_ok g f p g' n : gwfc g = true ->
+  g_unmarshal g f p = (g', Ok n) -> dec (S f) p = Ok (g_view g', n).
+Proof.
+  intros Hg. destruct g as [v|k c ps]; cbn [g_unmarshal].
+  - cbn [gwfc] in Hg. destruct (g_of_amf_spec false v Hg) as [A _].
+    destruct (g_of_amf false v) as [v0|k c ps].
+    + destruct (um_into v f p) as [[v' n']|e|s] eqn:E; try discriminate.
+      intros H. inversion H; subst. exact (um_into_dec _ _ _ _ _ E).
+    + rewrite gwfc_cont in A. apply andb_true_iff in A. destruct A as [A _].
+      apply andb_true_iff in A. destruct A as [Hk _]. apply g_unmarshal_cont_ok. exact Hk.
+  - rewrite gwfc_cont in Hg. apply andb_true_iff in Hg. destruct Hg as [Hg _].
+    apply andb_true_iff in Hg. destruct Hg as [Hk _]. apply g_unmarshal_cont_ok. exact Hk.
+Qed.
+
+(* the receiver after a rejection: scalars untouched; a container whose header was rejected
+   untouched; otherwise the header count is stored and the completed pairs are kept *)
+Theorem decode_into_rejected_scalar v f p e :
+  g_of_amf false v = GLeaf v -> g_unmarshal (GLeaf v) f p = (fst (g_unmarshal (GLeaf v) f p), Err e) ->
+  fst (g_unmarshal (GLeaf v) f p) = GLeaf v.
+Proof.
+  intros Hs. cbn [g_unmarshal]. rewrite Hs.
+  destruct (um_into v f p) as [[v' n]|e'|s]; cbn [fst]; [discriminate|reflexivity|reflexivity].
+Qed.
+
 (* ---- one operation, then any sequence ---- *)
 Definition op_wf (op : hop) : bool :=
   match op with
   | HSet _ key x => wf_strb key && gwfc x
   | HUnmarshal _ b => wf_bytesb b
+  | HDecodeInto _ b => wf_bytesb b
   | _ => true
   end.
 
@@ -300,7 +485,7 @@ Qed.
 
 Lemma h_step_wfc g op : gwfc g = true -> op_wf op = true -> gwfc (fst (h_step g op)) = true.
 Proof.
-  intros Hg Hop. destruct op as [k|path key x|path|k b|path key|path]; cbn [h_step].
+  intros Hg Hop. destruct op as [k|path key x|path|k b|path key|path|path b]; cbn [h_step].
   - destruct (is_cont_kind k) eqn:Ek; cbn [fst]; [|exact Hg]. rewrite gwfc_cont, Ek. reflexivity.
   - cbn [op_wf] in Hop. apply andb_true_iff in Hop. destruct Hop as [Hkey Hx].
     destruct (g_update path (set_at key x) g) as [g'|] eqn:E; cbn [fst]; [|exact Hg].
@@ -321,6 +506,13 @@ Proof.
   - destruct (g_at path g) as [[v|k c ps]|]; try exact Hg.
     destruct (gget_prop ps key); exact Hg.
   - destruct (g_at path g) as [[v|k c ps]|]; exact Hg.
+  - cbn [op_wf] in Hop. destruct (g_at path g) as [sub|] eqn:Ea; cbn [fst]; [|exact Hg].
+    pose proof (g_at_wfc path g sub Hg Ea) as Hsub.
+    pose proof (g_unmarshal_wfc sub (dec_fuel b) b Hsub (wf_bytesb_spec b Hop)) as Hw'.
+    destruct (g_unmarshal sub (dec_fuel b) b) as [sub' r]. cbn [fst] in Hw'.
+    destruct (g_update path (fun _ => Some sub') g) as [g'|] eqn:E; cbn [fst]; [|exact Hg].
+    apply (g_update_wfc path (fun _ => Some sub') g g'); [|exact Hg|exact E].
+    intros h h' Hh _. inversion Hh; subst. exact Hw'.
 Qed.
 
 Theorem h_run_wfc ops : forall g, gwfc g = true -> forallb op_wf ops = true -> gwfc (h_run g ops) = true.
@@ -387,4 +579,21 @@ Example history_example :
   fst (g_marshal (h_run g0 ops)) =
     [10; 0;0;0;2; 0;1;97; 6; 0;1;98; 10; 0;0;0;1; 0;1;120; 1;1] /\
   h_run g0 ops = GCont mStrictArray 2 [([97], GLeaf AUndef); ([98], GCont mStrictArray 1 [([120], GLeaf (ABool true))])].
+Proof. vm_compute. repeat split; reflexivity. Qed.
+
+(* the error state and its use: a StrictArray receives header count 4 with one complete element
+   and a second one cut short: it keeps count 4 and the one element (rejected, class 1).  Two Sets
+   later it has 3 properties and still count 4; MarshalBinary writes 3, inside a parent too. *)
+Example history_error_state :
+  let bad := [10; 0;0;0;4; 0;1;120; 5; 0;1;121; 2;0] in
+  let ops := [HNew mObject; HSet [] [115] (GCont mStrictArray 0 []); HSet [] [122] (GLeaf (ABool true));
+              HDecodeInto [[115]] bad] in
+  let g := h_run g0 ops in
+  forallb op_wf ops = true /\
+  snd (g_unmarshal (GCont mStrictArray 0 []) (dec_fuel bad) bad) = Err E_SHORT /\
+  g_at [[115]] g = Some (GCont mStrictArray 4 [([120], GLeaf ANull)]) /\
+  let g2 := h_run g [HSet [[115]] [98] (GLeaf AUndef); HSet [[115]] [99] (GLeaf ANull)] in
+  g_at [[115]] g2 = Some (GCont mStrictArray 4 [([120], GLeaf ANull); ([98], GLeaf AUndef); ([99], GLeaf ANull)]) /\
+  fst (g_marshal g2) =
+    [3; 0;1;115; 10; 0;0;0;3; 0;1;120; 5; 0;1;98; 6; 0;1;99; 5; 0;1;122; 1;1; 0;0;9].
 Proof. vm_compute. repeat split; reflexivity. Qed.
